@@ -28,6 +28,7 @@ inductive Ev where
   | ff (t : Nat)
   | cx (k : Nat) (t : Nat)
   | settled (t : Nat)
+  | slowdial
   | stuck (g site : String)
   | other (s : String)
 deriving Repr, Inhabited
@@ -62,6 +63,7 @@ def parseEv (toks : List String) : Ev :=
   | ["cx", k, t] => .cx (n k) (n t)
   | ["settled", t] => .settled (n t)
   | ["stuck", g, s] => .stuck g s
+  | ["slowdial"] => .slowdial
   | _ => .other (" ".intercalate toks)
 
 def parseHist (s : String) : List Ev :=
@@ -246,6 +248,25 @@ def c15 (h : H) : List String :=
            (if notes = 0 then ["C15:retry-without-notification"] else [])
          else []) ++ pairs ((i2, j2, x2, o2, t2) :: rest)
     pairs xs ++
+    -- with a slow dial (the dial / OnConnect in progress completes only when nothing else can run), a waiting
+    -- command whose context ends returns BEFORE that attempt does: the wait does not depend on the attempt
+    (if h.any (fun e => match e with | .slowdial => true | _ => false) ∧ xs.isEmpty then
+       match (idxd h).findSome? (fun (i, e) => match e with | .cx k' _ => if k' = k then some i else none | _ => none),
+             (idxd h).findSome? (fun (i, e) => match e with | .cmdb k' _ _ => if k' = k then some i else none | _ => none) with
+       | some ic, some ib =>
+         -- was an attempt in progress (dial begun, not ended) when the context ended, the command already waiting?
+         let lastB := ((idxd h).filter fun (i, e) => decide (i < ic) && match e with | .dialb _ _ => true | _ => false).getLast?
+         match lastB with
+         | some (jb, _) =>
+           let ended := (idxd h).find? fun (i, e) => decide (i > jb) && match e with | .diale _ _ _ _ => true | _ => false
+           match ended, en with
+           | some (je, _), some (ie, _, _) =>
+             if ib < ic ∧ ic < je ∧ ie > je then ["C15:cancelled-wait-blocked-behind-the-connect-attempt"] else []
+           | some (je, _), none => if ib < ic ∧ ic < je then ["C15:cancelled-wait-blocked-behind-the-connect-attempt"] else []
+           | _, _ => []
+         | none => []
+       | _, _ => []
+     else []) ++
     -- a cancelled command returns
     (match en with
      | none => ["C15:command-never-returned"]
